@@ -536,7 +536,7 @@ theorem ti_handleInactivity (h : TI s.timer now) : TI (handleInactivity s now).1
 theorem ti_handleAckTimer (h : TI s.timer now) (b : Bool) : TI (handleAckTimer s now b).timer now := by
   simp only [handleAckTimer]
   repeat' split
-  all_goals ti_gor [ti_abandon, ti_handleFault]
+  all_goals ti_gor [ti_abandon, ti_handleFault, ti_shutdown]
 theorem ti_handleTimeout (h : TI s.timer now) : TI (handleTimeout s now).timer now := by
   have h1 : TI (handleInactivity (handleDelayed s now) now).1.timer now :=
     ti_handleInactivity (by rw [timer_handleDelayed]; exact h)
